@@ -281,8 +281,14 @@ func (g *rowGen) genTime(tag, path string, row int) time.Time {
 	switch p.mode {
 	case 2:
 		ns = (p.base + int64(row)*p.step) * unit
+		if unit == int64(24*time.Hour) {
+			ns = (p.base + int64(row)*p.step) % 100000 * unit // days: keep the product within int64
+		}
 	case 3:
 		ns = p.base * unit
+		if unit == int64(24*time.Hour) {
+			ns = p.base % 100000 * unit
+		}
 	default:
 		if (strings.Contains(tag, "timestamp(milli") || strings.Contains(tag, "timestamp(micro")) && r.Intn(4) == 0 {
 			// millisecond and microsecond columns reach beyond what int64 nanoseconds hold: years 1..9999,
@@ -376,6 +382,21 @@ func (g *rowGen) scalar(v reflect.Value, tag, path string, row int) {
 			v.SetBool(r.Bool())
 		}
 	case reflect.Int, reflect.Int8, reflect.Int16, reflect.Int32, reflect.Int64:
+		if v.Type() == reflect.TypeOf(time.Duration(0)) && strings.Contains(tag, "time(") {
+			// a time of day at the granularity of the column's unit
+			unit := int64(time.Millisecond)
+			if strings.Contains(tag, "time(micro") {
+				unit = int64(time.Microsecond)
+			} else if strings.Contains(tag, "time(nano") {
+				unit = 1
+			}
+			x := int64(r.U64()%uint64(24*time.Hour)) / unit * unit
+			if r.Intn(6) == 0 {
+				x = gen.Pick(r, []int64{0, unit, int64(24*time.Hour) - unit, int64(5*time.Hour + 3*time.Second + 7*time.Millisecond)})
+			}
+			v.SetInt(x)
+			return
+		}
 		var x int64
 		switch p.mode {
 		case 1:
